@@ -103,6 +103,7 @@ type c06in struct {
 	Snr       int64     `json:"snr"` // -1: not in the URL (default start number 0)
 	AtoMS     int64     `json:"ato_ms,omitempty"`
 	AtoGeSeg  bool      `json:"ato_ge_segment,omitempty"` // availabilityTimeOffset >= shortest segment duration
+	TsbdLtSeg bool      `json:"tsbd_lt_segment,omitempty"` // time-shift buffer shorter than the longest segment
 	NowMS     int64     `json:"now_ms,omitempty"`
 	URLSingle string    `json:"url_single,omitempty"`
 	URLMulti  string    `json:"url_multi,omitempty"`
@@ -340,12 +341,41 @@ func (lr *liveRun) oracle(id string, in c06in, a *lib.TLAsset, sm *m.MPD, multi 
 	}
 	// periods are counted from availabilityStartTime
 	k0, k1 := (winStart-astMS)/(P*1000), (in.NowMS-astMS)/(P*1000)
-	if int64(len(mm.Periods)) != k1-k0+1 {
-		lr.fail(id, "tiling:count", fmt.Sprintf("%d periods, expected P%d..P%d", len(mm.Periods), k0, k1), in)
+	// The periods must be consecutive and cover at least [period of the window start, period of now];
+	// they may reach further only as far as a listed segment of the single-period MPD needs its period
+	// (a tree with the repair "period range covers listed segments" does, a tree without it does not).
+	lo, hi := k0, k1
+	for _, sas := range sm.Periods[0].AdaptationSets {
+		if sst := sas.SegmentTemplate; sst != nil && sst.SegmentTimeline != nil && in.Mode != "number" {
+			if X := expandTL(sst); len(X) > 0 {
+				pt := P * int64(sst.GetTimescale())
+				if k := int64(X[0].T) / pt; k < lo {
+					lo = k
+				}
+				if k := int64(X[len(X)-1].T) / pt; k > hi {
+					hi = k
+				}
+			}
+		}
+	}
+	if len(mm.Periods) == 0 {
+		lr.fail(id, "tiling:count", fmt.Sprintf("no periods, expected P%d..P%d", k0, k1), in)
 		return
 	}
+	ka := int64(-1 << 62)
+	if strings.HasPrefix(mm.Periods[0].Id, "P") {
+		if v, err := strconv.ParseInt(mm.Periods[0].Id[1:], 10, 64); err == nil {
+			ka = v
+		}
+	}
+	kb := ka + int64(len(mm.Periods)) - 1
+	if ka > k0 || kb < k1 || ka < lo || kb > hi {
+		lr.fail(id, "tiling:count", fmt.Sprintf("periods %s..P%d (%d), expected to cover P%d..P%d and to stay within P%d..P%d", mm.Periods[0].Id, kb, len(mm.Periods), k0, k1, lo, hi), in)
+		return
+	}
+	k0 = ka // the first period of this MPD
 	for i, p := range mm.Periods {
-		k := k0 + int64(i)
+		k := ka + int64(i)
 		if p.Id != fmt.Sprintf("P%d", k) {
 			lr.fail(id, "tiling:id", fmt.Sprintf("period %d has id %q, expected P%d", i, p.Id, k), in)
 			return
@@ -482,6 +512,13 @@ func (lr *liveRun) oracle(id string, in c06in, a *lib.TLAsset, sm *m.MPD, multi 
 		for _, x := range X {
 			if int64(x.T) >= k0*P*ts {
 				want = append(want, x)
+			}
+		}
+		// beyond the text of the property (which exempts segments that start before the first period):
+		// a listed segment must not vanish altogether
+		for _, x := range X {
+			if int64(x.T) < k0*P*ts {
+				lr.fail(id, "partition:before-first-period", fmt.Sprintf("adaptation set %d: the segment starting at %d (number %d) is listed by the single-period MPD but starts before the first period %s and is in no period", j, x.T, x.Nr, mm.Periods[0].Id), in)
 			}
 		}
 		numbered := strings.Contains(sst.Media, "$Number$")
@@ -869,6 +906,72 @@ func run(c *lib.Ctx) error {
 			}
 		}
 	}
+	// time-shift buffer shorter than a segment, just after a period boundary: the newest ended segment
+	// is listed although it starts before the window (and before the period that contains the window start);
+	// pairwise with availabilityTimeOffset, start time and start number
+	nT := 1
+	if c.Thorough() {
+		nT = 6
+	}
+	for _, sp := range []struct{ path, mpd string }{{"testpic_2s", "Manifest.mpd"}, {"testpic_6s", "Manifest.mpd"}, {"testpic_8s", "Manifest.mpd"}, {"testpic_alt_seg_dur_stl", "Manifest.mpd"}, {"testpic_2s", "Manifest_imsc1.mpd"}} {
+		a := byPath[sp.path]
+		N := int64(len(a.Ref().Segs))
+		segMS := (a.RefDur*1000 + a.RefTS*N/2) / (a.RefTS * N)
+		minSegMS, maxSegMS := int64(1)<<62, int64(0)
+		for _, sg := range a.Ref().Segs {
+			d := (sg.End - sg.Start) * 1000 / a.RefTS
+			if d < minSegMS {
+				minSegMS = d
+			}
+			if d > maxSegMS {
+				maxSegMS = d
+			}
+		}
+		for _, pph := range []int64{30, 60, 300, 1} {
+			P := 3600 / pph
+			if (P*1000)%segMS != 0 {
+				continue
+			}
+			for _, mode := range modes {
+				for _, tsbd := range []int64{0, 1, maxSegMS/1000 - 1, maxSegMS / 1000} {
+					if tsbd < 0 {
+						continue
+					}
+					for k := 0; k < nT; k++ {
+						b := int64(1+rng.Intn(30)) * P * 1000
+						offs := []int64{0, 1, 500, minSegMS - 1, minSegMS, maxSegMS - 1, maxSegMS, maxSegMS + 1}
+						for _, off := range []int64{offs[rng.Intn(len(offs))], offs[rng.Intn(len(offs))]} {
+							startS, snr, ato := int64(0), int64(-1), int64(0)
+							switch rng.Intn(5) {
+							case 0:
+								startS = 1000
+							case 1:
+								snr = 5
+							case 2:
+								ato = []int64{minSegMS / 2, segMS + 1000}[rng.Intn(2)]
+							case 3:
+								startS, ato = 1600000000, minSegMS/2
+							}
+							in := c06in{Kind: "live", Asset: sp.path, MPD: sp.mpd, Mode: mode, PPH: pph, Tsbd: tsbd, Snr: snr, StartS: startS, AtoMS: ato,
+								AtoGeSeg: ato >= minSegMS, TsbdLtSeg: tsbd*1000 < maxSegMS, Cont: rng.Intn(4) == 0,
+								NowMS: startS*1000 + b + tsbd*1000 + off, Instant: "after-boundary/short-tsbd"}
+							lr.fetchAll = false
+							term, ok := lr.live(id, in, a, true)
+							if in.TsbdLtSeg {
+								c.Count("live/" + mode + "/tsbd<segment")
+							} else {
+								c.Count("live/" + mode + "/tsbd=segment")
+							}
+							if ok {
+								terms = append(terms, term)
+							}
+							id++
+						}
+					}
+				}
+			}
+		}
+	}
 	nLive := id
 
 	// ---- L2: reduceS
@@ -1198,9 +1301,17 @@ func genSplit(rng *rand.Rand) splitIn {
 	if rng.Intn(6) == 0 {
 		base = 1700000000000 / (P * 1000) * (P * 1000)
 	}
+	outOfRange := pph < 1 || pph > 3600
+	if outOfRange {
+		// unreachable through the handler (400); keep the number of periods small
+		base = rng.Intn(20) * P * 1000
+	}
 	switch rng.Intn(4) {
 	case 0:
 		si.StartTimeS = []int{30, 1000, 1600000000, 7}[rng.Intn(4)]
+		if outOfRange {
+			si.StartTimeS = 30
+		}
 	}
 	switch rng.Intn(3) {
 	case 0:
